@@ -82,16 +82,19 @@ theorem conflictWith_none {c : PercCfg} (hc : c.conflictOp = .ge) {ks : KS} {sta
 
 theorem prewriteK_cases (c : PercCfg) (hc : c.conflictOp = .ge) (h : PwHdr) (m : Mut) (ks : KS)
     (hd : Desc WRec.ts ks.writes) :
-    ((prewriteK c h m ks).1 = ks ∧ (prewriteK c h m ks).2 ≠ none) ∨
+    ((prewriteK c h m ks).1 = ks ∧ True) ∨
     (∃ K V, PwWrites m K V ∧ (∀ l, ks.lock = some l → l.ts = h.start) ∧ (∀ w ∈ ks.writes, w.ts < h.start) ∧
       prewriteK c h m ks = (pwState h K V ks, none)) := by
   unfold prewriteK
   cases hl : lockedByOther ks h.start with
-  | some l => left; exact ⟨rfl, by simp⟩
+  | some l => left; exact ⟨rfl, trivial⟩
   | none =>
     have hlk := lockedByOther_none hl
+    simp only
+    split
+    · left; exact ⟨rfl, trivial⟩
     cases hcf : conflictWith c ks h.start with
-    | some w => left; exact ⟨rfl, by simp⟩
+    | some w => left; exact ⟨rfl, trivial⟩
     | none =>
       have hall := conflictWith_none hc hd hcf
       simp only [prewriteWrite]
@@ -99,7 +102,7 @@ theorem prewriteK_cases (c : PercCfg) (hc : c.conflictOp = .ge) (h : PwHdr) (m :
       | put => right; exact ⟨.put, some m.val, Or.inl ⟨hop, rfl, rfl⟩, hlk, hall, rfl⟩
       | del => right; exact ⟨.del, none, Or.inr (Or.inl ⟨hop, rfl, rfl⟩), hlk, hall, rfl⟩
       | lock => right; exact ⟨.lock, none, Or.inr (Or.inr ⟨hop, rfl, rfl⟩), hlk, hall, rfl⟩
-      | other => left; exact ⟨rfl, by simp⟩
+      | other => left; exact ⟨rfl, trivial⟩
 
 /-! ### commitK -/
 
